@@ -536,7 +536,7 @@ HARNESSES = dict(dh_roles=Harness('dh_roles', run_dh_roles, max_paths=4000, budg
                  dh_refusals=Harness('dh_refusals', run_dh_refusals),
                  point_ops=Harness('point_ops', run_point_ops, max_paths=4000),
                  f25519=Harness('f25519', run_f25519), cswap448=Harness('cswap448', run_cswap448),
-                 bignum=Harness('bignum', run_bignum), ec_scalar_mem=ecc_c.HARNESS)
+                 bignum=Harness('bignum', run_bignum, timeout_ms=600000, budget_s=1500), ec_scalar_mem=ecc_c.HARNESS)
 
 
 def shapes(tier):
@@ -562,8 +562,8 @@ def shapes(tier):
     jobs.append(('cswap448', dict()))
     for fn in ('ge', 'sub', 'add_mod', 'sub_mod', 'mod_select'):
         for nw in (1, 2, 3, 4) if th else (1, 2, 3):
-            if fn in ('add_mod', 'sub_mod') and nw > 2:
-                continue            # z3 does not finish the 3-word modular add/sub within the budget (measured): outside
+            if fn in ('add_mod', 'sub_mod') and nw > (2 if th else 1):
+                continue        # 2 words: 20-50 s on an idle machine (thorough only); 3 words: unknown at 150 s (outside)            # z3 does not finish the 3-word modular add/sub within the budget (measured): outside
             jobs.append(('bignum', dict(fn=fn, nw=nw)))
     # real C scalar multiplication on concrete operands (LLSYM as interpreter): scalars up to and beyond the order,
     # generator fast path and generic path, against the textbook multiple
@@ -574,7 +574,7 @@ def shapes(tier):
 BOUNDS = dict(dh="5 NIST curves + Curve25519 + Curve448 (quick: P-256, P-521, both X curves); every supported SP 800-56A role combination; "
               "all private scalars symbolic at full byte length",
               point_ops="scalars of 1..75 bytes (all values of the given byte length), symbolic points that are public keys of symbolic scalars",
-              kernels="mod25519.c linear kernels: all limbs symbolic under the stated limb-range precondition; bignum.c ge/sub/mod_select for 1..3 (thorough 4) 64-bit words, add_mod/sub_mod for 1..2 words",
+              kernels="mod25519.c linear kernels: all limbs symbolic under the stated limb-range precondition; bignum.c ge/sub/mod_select for 1..3 (thorough 4) 64-bit words, add_mod/sub_mod for 1 word (thorough: 2 words)",
               outside=["the multiplication-based C kernels (mul_25519, mont_mult_*, ec_full_add/double, ec_scalar*, ed25519/ed448 add/double/scalar, "
                        "the ladders, the precomputed tables): wide modular multiplication is not SMT-decidable here (measured, see DESIGN.md)",
                        "hence: agreement of the C scalar multiplication with the mathematical group law (checked only concretely in replay/validation "
